@@ -155,7 +155,7 @@ def outcome_class(o):
     e = o.get('err')
     return 'err:' + (str(e) if not is_sym(e) else 'sym')
 
-def diff_paths(E, name, finals, impl_outcome, ref_fn, assume, inputs, key_fn=None, timeout_ms=None, witness_classes=None, assume_in_pc=True, ground=None):
+def diff_paths(E, name, finals, impl_outcome, ref_fn, assume, inputs, key_fn=None, timeout_ms=None, witness_classes=None, assume_in_pc=True, ground=None, crash_everywhere=False):
     """decide an obligation: every terminated implementation path against the guarded reference outcomes.
     impl_outcome(f) -> comparable structure; ref_fn(ctx) -> comparable structure; inputs: dict name -> term/list (for counterexamples)"""
     timeout_ms = timeout_ms or E.query_timeout_ms
@@ -180,7 +180,7 @@ def diff_paths(E, name, finals, impl_outcome, ref_fn, assume, inputs, key_fn=Non
             if f.aux.get('oracle'): res['cex']['_oracle'] = concretize(m, [[list(a[0:1]) + [list(a[1]), list(a[2]), list(a[3]), a[4]], v] for a, v in f.aux['oracle']])
             res['note'] = 'implementation: %s | reference: %s' % (short(concretize(m, io_)), short(concretize(m, ro_)))
             res['key'] = key_fn(concretize(m, io_), concretize(m, ro_)) if key_fn else None
-        refexec.decide(list(f.pc) if assume_in_pc else list(assume) + list(f.pc), io, cases, V, timeout_ms, on_sat, ground)
+        refexec.decide(list(f.pc) if assume_in_pc else list(assume) + list(f.pc), io, cases, V, timeout_ms, on_sat, ground, crash_everywhere)
     res['classes'] = classes
     res['status'] = V.status; res['queries'] += V.queries; res['sat'] = V.sat; res['unsat'] = V.unsat; res['unknown'] = V.unknown; res['solver_s'] += V.time
     if V.status == 'inconclusive': res['note'] = 'solver returned unknown on a post-condition query'
